@@ -569,6 +569,14 @@ func (e Element) Write(w io.Writer, indent int) error {
 		closeAngleBracketIndent = indent
 	}
 	if e.hasNonWhitespaceChildren() {
+		if !e.IndentChildren {
+			// Children that are written over several lines (e.g. an element laid out with one attribute per
+			// line) are read back as indented children: lay them out that way at once.
+			b := new(bytes.Buffer)
+			if err := writeNodesWithoutIndentation(b, e.Children); err == nil && bytes.Contains(b.Bytes(), []byte("\n")) {
+				e.IndentChildren = true
+			}
+		}
 		if e.IndentChildren {
 			if err := writeIndent(w, closeAngleBracketIndent, ">\n"); err != nil {
 				return err
